@@ -24,7 +24,7 @@ INVARIANTS = ("TypeOK WindowShape WindowSufficient GapFreeInOrder NoDuplicate Sk
               "CloseWakesAll NoLostWaiter PosConsistent FreeListSound")
 PROPERTIES = "RecentIsNewest BehindSkipsOnlyDropped NotReadyOnlyWhen CopyIndependent GrowOnlyWhenFull"
 
-ALL_STYLES = '{"split", "coro", "block", "poll"}'
+ALL_STYLES = '{"split", "coro", "loop", "block", "poll"}'
 
 
 def tla_set(xs):
@@ -34,13 +34,12 @@ def tla_set(xs):
 def proj(st):
     regs = []
     for r in st["regs"]:
-        regs.append({"pos": r["pos"], "used": r["used"], "kicked": r["kicked"] if r["used"] else False,
-                     "awt": r["awt"] if r["used"] else 0})
+        regs.append({"pos": r["pos"], "used": r["used"], "kicked": r["kicked"], "awt": r["awt"]})
     subs = {}
     for i, pc in enumerate(st["pc"]):
         if pc == "unborn":
             continue
-        if pc in ("wfetch_c", "wfetch_b"):
+        if pc in ("wfetch_c", "wfetch_l", "wfetch_b"):
             raise MachineryError("path ends inside a wake-up (merge failed)")
         subs[str(i + 1)] = {"pc": pc, "hnd": st["hnd"][i], "mode": st["mode"][i], "recv": st["recv"][i],
                             "res": st["res"][i], "wakes": st["wakes"][i]}
@@ -183,7 +182,7 @@ def fast_cover():
 
 
 MUST_TAKE = ["SubscribeRecent", "SubscribeAt", "Leave", "Ready", "Subscribe", "Fetch", "Poll", "NextWhole",
-             "Wake", "WFetch", "PushCS", "Close", "KickCS"]
+             "Wake", "WFetch", "PushCS", "Close", "KickCS", "KickGone"]
 
 
 def replay_config(ctx, rp, c, tag, must=MUST_TAKE, max_paths=None, extra_random=0, key_fn=None):
@@ -221,10 +220,10 @@ def must_for(styles, kick, at, copy=True):
         must += ["Ready", "Subscribe", "Fetch"]
     if "poll" in styles:
         must.append("Poll")
-    if "coro" in styles or "block" in styles:
+    if "coro" in styles or "block" in styles or "loop" in styles:
         must += ["NextWhole", "WFetch"]
     if kick:
-        must.append("KickCS")
+        must += ["KickCS", "KickGone"]
     return must
 
 
@@ -235,7 +234,7 @@ def run(ctx):
         # one subscriber: every style; (min,max,mode) sampled over the three modes, incl. unlimited
         solo = [(1, U, "all", 4, 3), (1, 2, "all", 4, 2), (2, 3, "behind", 4, 2), (1, 1, "recent", 4, 2),
                 (2, U, "recent", 3, 3)]
-        duo = [(1, 2, ["all"], '{"split"}', 1, 2, [0]), (1, U, ["all", "recent"], '{"coro", "poll"}', 0, 2, [0]),
+        duo = [(1, 2, ["all"], '{"split"}', 1, 2, [0]), (1, U, ["all", "recent"], '{"loop", "poll"}', 0, 2, [0]),
                (2, 2, ["behind"], '{"split", "block"}', 0, 2, [])]
         cap = 2500
     else:
@@ -249,7 +248,7 @@ def run(ctx):
         for (mn, mx) in ((1, 1), (1, 2), (2, 3), (1, U), (3, U)):
             for modes in (["all"], ["behind"], ["recent"], ["all", "recent"]):
                 duo.append((mn, mx, modes, '{"split"}', 1, 3 if len(modes) == 1 else 2, [0]))
-                duo.append((mn, mx, modes, '{"coro", "poll", "block"}', 0, 3 if len(modes) == 1 else 2, [0]))
+                duo.append((mn, mx, modes, '{"coro", "loop", "poll", "block"}', 0, 3 if len(modes) == 1 else 2, [0]))
         cap = None
     for (mn, mx, mode, pub, batch) in solo:
         c = consts(1, mn, mx, [mode], pub=pub, batch=batch, join=2)
@@ -261,8 +260,9 @@ def run(ctx):
         replay_config(ctx, rp, c, "duo%d_" % k + label(c), must=must_for(styles, kick, at), max_paths=cap)
     vlib.log("  C16 duo configurations done: %.0fs" % (time.time() - t0))
     # three subscribers: registration array / free list / wake order
-    c = consts(3, 1, 2, ["all"], styles='{"coro"}', pub=1 if ctx.quick else 2, batch=2, join=4, kick=0, at=[])
-    replay_config(ctx, rp, c, "trio", must=must_for('{"coro"}', 0, []), max_paths=cap)
+    c = consts(3, 1, 2, ["all"], styles='{"loop"}' if ctx.quick else '{"loop", "coro"}', pub=1 if ctx.quick else 2, batch=2, join=4,
+               kick=0, at=[])
+    replay_config(ctx, rp, c, "trio", must=must_for('{"loop"}', 0, []), max_paths=cap)
     # a subscriber copied while it is parked (separate key: own defect of the pinned tree)
     c = consts(2, 1, U, ["all"], styles='{"split", "coro"}', pub=2, batch=1, join=2, kick=0, at=[], copybusy=True)
     replay_config(ctx, rp, c, "copybusy", must=["SubscribeCopy", "Wake"], max_paths=cap,
